@@ -1,8 +1,143 @@
 package rt
 
-// RunConcurrent drives the cases from several client goroutines (C20). Filled in later.
-func (dr *Driver) RunConcurrent(cases []*Case, workers int, seed uint64) {
-	for _, c := range cases {
-		dr.Log(dr.Run(c))
+import (
+	"encoding/json"
+	"runtime"
+	"sort"
+	"sync"
+	"sync/atomic"
+	"time"
+
+	"verif.local/lab/vc"
+)
+
+// concState tracks overlap between in-flight exchanges.
+type concState struct {
+	inFlight   atomic.Int64
+	maxFlight  atomic.Int64
+	mu         sync.Mutex
+	active     map[*Exchange]string // exchange -> class
+	overlaps   map[string]int       // "classA|classB" -> count (observed at stub entry)
+	stubOverlp atomic.Int64
+}
+
+func classOf(c *Case) string {
+	cls := c.Class
+	for i := 0; i < len(cls); i++ {
+		if cls[i] == ':' {
+			cls = cls[:i]
+			break
+		}
 	}
+	if c.Outcome != nil && c.Outcome.Kind != "result" {
+		cls += "/" + c.Outcome.Kind
+	}
+	return cls
+}
+
+// RunConcurrent drives the cases from `workers` client goroutines, `rounds` times each, with PRNG-chosen
+// yields and short sleeps inside the stub (between decode and encode) so that requests overlap (records
+// with Note["phase"]="concurrent"), and afterwards runs every case once sequentially (baseline records,
+// Note["phase"]="baseline"). A summary record reports the overlap actually observed.
+func (dr *Driver) RunConcurrent(cases []*Case, workers int, seed uint64) {
+	// ---- phase 1: concurrent (first, so that lazily initialised shared state is still cold)
+	st := &concState{active: map[*Exchange]string{}, overlaps: map[string]int{}}
+	dr.StubHook = func(ex *Exchange, args []any) {
+		st.mu.Lock()
+		me := classOf(ex.Case)
+		for other, oc := range st.active {
+			if other != ex {
+				k := []string{me, oc}
+				sort.Strings(k)
+				st.overlaps[k[0]+"|"+k[1]]++
+			}
+		}
+		st.mu.Unlock()
+		// widen the window between decode and encode: the program's natural suspension point
+		r := vc.NewRand(seed, uint64(ex.Case.ID), uint64(len(ex.Seq)))
+		switch r.Intn(4) {
+		case 0:
+			runtime.Gosched()
+		case 1:
+			time.Sleep(time.Duration(r.Intn(200)) * time.Microsecond)
+		case 2:
+			for i := 0; i < r.Intn(5); i++ {
+				runtime.Gosched()
+			}
+		}
+	}
+	rounds := 3
+	type job struct {
+		c     *Case
+		round int
+	}
+	jobs := make(chan job, 256)
+	var wg sync.WaitGroup
+	for w := 0; w < workers; w++ {
+		wg.Add(1)
+		go func(w int) {
+			defer wg.Done()
+			for j := range jobs {
+				cc := cloneCase(j.c)
+				cc.Note["phase"] = "concurrent"
+				cc.Note["worker"] = w
+				cc.Note["round"] = j.round
+				n := st.inFlight.Add(1)
+				for {
+					m := st.maxFlight.Load()
+					if n <= m || st.maxFlight.CompareAndSwap(m, n) {
+						break
+					}
+				}
+				ex := dr.runConc(cc, st)
+				st.inFlight.Add(-1)
+				dr.Log(ex)
+			}
+		}(w)
+	}
+	order := vc.NewRand(seed, 4242)
+	for r := 0; r < rounds; r++ {
+		perm := order.Perm(len(cases))
+		for _, i := range perm {
+			jobs <- job{cases[i], r}
+		}
+	}
+	close(jobs)
+	wg.Wait()
+	dr.StubHook = nil
+	// ---- phase 2: sequential baseline of the same cases
+	for _, c := range cases {
+		cc := cloneCase(c)
+		cc.Note["phase"] = "baseline"
+		dr.Log(dr.Run(cc))
+	}
+	sum := map[string]any{"design": dr.DesignID, "conc_summary": true, "workers": workers, "rounds": rounds,
+		"max_in_flight": st.maxFlight.Load(), "overlap_pairs": st.overlaps}
+	b, _ := json.Marshal(sum)
+	dr.outMu.Lock()
+	dr.out.Write(b)
+	dr.out.WriteByte('\n')
+	dr.outMu.Unlock()
+}
+
+func cloneCase(c *Case) *Case {
+	cc := *c
+	cc.Note = map[string]any{}
+	for k, v := range c.Note {
+		cc.Note[k] = v
+	}
+	return &cc
+}
+
+// runConc is Run without the process-global "current exchange" (the exchange travels in contexts only).
+func (dr *Driver) runConc(c *Case, st *concState) *Exchange {
+	ex := dr.runWith(c, false, func(ex *Exchange) {
+		st.mu.Lock()
+		st.active[ex] = classOf(ex.Case)
+		st.mu.Unlock()
+	})
+	st.mu.Lock()
+	delete(st.active, ex)
+	st.mu.Unlock()
+	return ex
 }
